@@ -6,5 +6,10 @@ def build(tier):
     kinds = ["function", "macro", "set", "option", "cpp_class", "cpp_end_class", "cpp_attr", "cpp_member", "cpp_constructor",
              "ct_add_test", "ct_add_section", "add_test", "endfunction", "cmake_parse_arguments", "message"]
     # the ten include_undocumented_* flags symbolic; delta says: shown = documented or flag[kind]
-    obs = steps.step_obligations("C08.a", kinds, tier, 1 if quick else 2, 2 if quick else 3, symflags=True, symargs=False)
+    md, mc = (1 if quick else 2), (2 if quick else 3)
+    obs = steps.step_obligations("C08.a", [k for k in kinds if k != "cpp_class"], tier, md, mc, symflags=True, symargs=False)
+    # known finding D3 (documented cpp_class with include_undocumented_cpp_class off): its region is subtracted from the cpp_class
+    # shard, and isolated in a shard of its own that is expected to fail (prints KNOWN-FINDING; says so if it stops reproducing)
+    obs += steps.step_obligations("C08.a", ["cpp_class"], tier, md, mc, symflags=True, symargs=False, region=("D3", "out"))
+    obs += steps.step_obligations("C08.a", ["cpp_class"], tier, 0, 1, symflags=True, symargs=False, region=("D3", "in"))
     return dict(obligations=obs, explanation="x", assumptions=[])
